@@ -38,7 +38,7 @@ def _detect_role():
         role = "tracker"
     elif "multiprocessing.resource_tracker import main" in a:
         role = "mptracker"
-    elif os.environ.get("LOKY_VERIF_DRIVER") and any(x.endswith(os.environ["LOKY_VERIF_DRIVER"]) for x in ARGV):
+    elif os.environ.get("LOKY_VERIF_DRIVER") and (any(x.endswith(os.environ["LOKY_VERIF_DRIVER"]) for x in ARGV) or ("-m" in ARGV[:4] and os.environ["LOKY_VERIF_DRIVER"][:-3] in ARGV[:5])):
         role = "driver"
     else:
         role = "other"
